@@ -767,6 +767,34 @@ class CDict:
 
 
 # ---------------------------------------------------------------- Rec
+class SDict:
+    """python dict with string keys and integer values (a token -> id map): a domain predicate and a value function over strings"""
+
+    def __init__(self, dom, val):
+        self.dom = dom  # z3 Array String -> Bool
+        self.val = val  # z3 Array String -> Int
+
+    @staticmethod
+    def fresh(name):
+        return SDict(z3.Const(fresh_name(name + "_dom"), z3.ArraySort(z3.StringSort(), z3.BoolSort())),
+                     z3.Const(fresh_name(name + "_val"), z3.ArraySort(z3.StringSort(), z3.IntSort())))
+
+    def has(self, key):
+        return z3.Select(self.dom, key)
+
+    def get(self, key):
+        return z3.Select(self.val, key)
+
+    def leaves(self):
+        return [self.dom, self.val]
+
+    def rebuild(self, leaves):
+        return SDict(leaves[0], leaves[1])
+
+    def sig(self):
+        return ("SDict",)
+
+
 class Rec:
     """object with named fields; cls is the (repository) class name used for method lookup"""
 
